@@ -1317,8 +1317,9 @@ fn render_partial_pattern(partial: &PartialPattern) -> String {
 /// in parentheses so it re-parses as a `Match::Type` rather than, say, a structural tuple pattern.
 fn render_match_type(type_def: &Type) -> String {
     let bare = match type_def {
+        // A `<'int>` is not one of the bare forms.
+        Type::Identifier { .. } => !is_bracketed_parameter(type_def),
         Type::Primitive(_)
-        | Type::Identifier { .. }
         | Type::ModuleType { .. }
         | Type::SelfDefault { .. } => true,
         Type::Tuple(tuple_type) => tuple_type.is_partial,
@@ -1342,6 +1343,9 @@ fn render_type(type_def: &Type) -> String {
         Type::Primitive(PrimitiveType::Int) => "'int".to_string(),
         Type::Primitive(PrimitiveType::Bin) => "'bin".to_string(),
         Type::Primitive(PrimitiveType::Ref) => "'ref".to_string(),
+        // A type (parameter) that is named like a primitive is only reachable as `<'int>`: a bare
+        // `'int` is the primitive.
+        Type::Identifier { name, .. } if is_bracketed_parameter(type_def) => format!("<'{}>", name),
         Type::Identifier { name, arguments } => {
             format!("'{}{}", name, render_type_arguments(arguments))
         }
@@ -1390,14 +1394,22 @@ fn render_type(type_def: &Type) -> String {
 
 /// Render a type where the grammar expects a `base_type`/atom (intersection members, process
 /// receive/return, function input/output): wrap an intersection or function in parentheses. A union
-/// is already parenthesised by `render_type`.
+/// is already parenthesised by `render_type`. A `<'int>` is wrapped too: a function input/output
+/// does not accept it bare (`#<'int>` opens a type parameter list).
 fn render_type_atom(type_def: &Type) -> String {
     match type_def {
         Type::Intersection(_) | Type::Function(_) => {
             format!("({})", render_type(type_def))
         }
+        _ if is_bracketed_parameter(type_def) => format!("({})", render_type(type_def)),
         _ => render_type(type_def),
     }
+}
+
+/// Whether `type_def` is a type (parameter) named like a primitive, which is written `<'int>`.
+fn is_bracketed_parameter(type_def: &Type) -> bool {
+    matches!(type_def, Type::Identifier { name, arguments }
+        if arguments.is_empty() && matches!(name.as_str(), "int" | "bin" | "ref"))
 }
 
 /// A union member is an intersection-level type, so it never needs wrapping except for a function
